@@ -31,6 +31,20 @@ inductive Tm
   deriving Repr, Inhabited
 
 mutual
+def Tm.beq : Tm → Tm → Bool
+  | .t a, .t b => a == b
+  | .h a, .h b => a == b
+  | .g d a, .g e b => d == e && Tm.beqList a b
+  | _, _ => false
+def Tm.beqList : List Tm → List Tm → Bool
+  | [], [] => true
+  | a :: as, b :: bs => Tm.beq a b && Tm.beqList as bs
+  | _, _ => false
+end
+
+instance : BEq Tm := ⟨Tm.beq⟩
+
+mutual
 /-- instantiate a template: holes are looked up in `env` (missing hole = nothing, like `Option::None`) -/
 def Tm.inst (env : List (String × TS)) : Tm → TS
   | .t tok => [tok]
